@@ -12,7 +12,7 @@ ANCHORS = ["scores.py:Scores.cm", "scores.py:Scores.hard_pos_ratio", "scores.py:
            "scores.py:Scores.threshold_at_tnr", "scores.py:Scores.threshold_at_fpr", "scores.py:Scores.threshold_at_topr", "scores.py:Scores.threshold_at_tonr",
            "scores.py:Scores.auc"]
 RAISES_ARE_VIOLATIONS = True
-DECIDING = {"R-easy": 15000}
+DECIDING = {"R-easy": 10533}
 RULE = (
     "Per case the driver builds the object declaring k easy positives / m easy negatives and the object in which those k+m samples are actual "
     "scores beyond all other scores on their own class's side (distinct values), issues the same monitored queries to both and R-easy compares: "
